@@ -406,12 +406,14 @@ func C08(c *wk.Ctx) {
 		c.Begin(run)
 		u := wk.NewUnit(run)
 		r := simrt.NewRNG(c.UnitSeed(run, 8))
+		var digest uint64
 		for hi := 0; hi < perUnit; hi++ {
 			gc := gen.Generate(c.UnitSeed(run, uint64(200+hi)), c08Opts())
 			cs := c08History(r, gc, maxLen)
 			f, done, steps, budget := runHist(cs, u.Counters)
 			u.Evals += int64(done)
 			u.Steps += steps
+			digest = digest*1099511628211 ^ uint64(steps)<<1 ^ uint64(done)
 			u.Counters["histories"]++
 			if len(cs.Obligatory) > 0 {
 				u.Counters["histories_with_obligatory_directives"]++
@@ -434,6 +436,7 @@ func C08(c *wk.Ctx) {
 				u.Sample(1, map[string]interface{}{"ops": cs.Ops, "obligatory": cs.Obligatory, "files": len(gc.Files), "first_file": trunc(gc.Files[0].Source(), 300)})
 			}
 		}
+		u.Observe("digest", fmt.Sprintf("%016x", digest))
 		c.Emit(u)
 	}
 }
